@@ -218,6 +218,33 @@ def sweep(tier, seed=0):
                             break
                 if e2e_fail:
                     break
+        # None (new axis) combined with an integer-list indexer (and an integer): two recorded findings live here
+        if e2e_fail == 0:
+            x = np.arange(24).reshape(4, 6)
+            d = da.from_array(x, chunks=(2, 3))
+            y = np.arange(6)
+            e1 = da.from_array(y, chunks=3)
+            fam = [(e1, y, (None, [5, 1, 3])), (e1, y, ([5, 1, 3], None)), (e1, y, (None, [1, 2])), (d, x, (None, [1, 2])), (d, x, ([1, 2], None)), (d, x, (0, None, [1, 2])),
+                   (d, x, (1, None, [0, 2, 2])), (d, x, (None, slice(None), [1, 2])), (d, x, (slice(None), None, [1, 4])), (d, x, (slice(None), None, [1, 2])), (d, x, (None, [0, 1], slice(None)))]
+            for arr, ref, ix in fam:
+                cases += 1
+                want = ref[ix]
+                symptom = None
+                try:
+                    r = arr[ix]
+                    got = r.compute()
+                    if not np.array_equal(got, want):
+                        msg, symptom = f"dask gives {np.asarray(got).tolist()}, NumPy gives {want.tolist()}", "wrong-value"
+                    elif tuple(r.shape) != tuple(got.shape):
+                        msg, symptom = f"lazy shape {tuple(r.shape)} but the computed value has shape {tuple(got.shape)}", "lazy-shape"
+                    else:
+                        msg = None
+                except TypeError as ex:
+                    msg, symptom = f"TypeError: {ex}", ("concatenate-arrays-axis" if "concatenate_arrays" in str(ex) else "TypeError")
+                except Exception as ex:  # noqa
+                    msg, symptom = f"{type(ex).__name__}: {ex}", type(ex).__name__
+                if msg:
+                    fails.append(rtc.Failure("Array.__getitem__", {"shape": ref.shape, "chunks": arr.chunks, "index": ix, "newaxis_and_list": True, "symptom": symptom}, "ensures", "C20-equals-numpy", msg))
     return {"function": "dask/array/slicing.py kernels + Array.__getitem__ (real code vs NumPy; bounded only)", "bounded": True,
             "bound": {"1-D lengths": maxn, "chunkings": "all, plus zero-length chunks inserted", "slices": f"every start/stop/step in [-n-1, n+1] + None", "other": "ints, None, Ellipsis, int lists, boolean mask; 2-D 3x4 combinations; 4x6 boolean masks (NumPy / dask with 5 independent chunkings, row masks) x 5 array chunkings", "time_budget_s": budget},
             "cases": cases, "distinct_nontrivial": cases, "failures_found": len(fails), "wall_s": round(time.time() - t0, 2),
